@@ -536,8 +536,6 @@ def c18_jobs(tier):
         jobs.append({"func": "verif_C18_vector", "args": [kind, 0, 0]})
         mps = [0, enc([1, 0, 0, 0, 1, 0, 2, 0, 1])]
         for vk in ([0, 1, 2, 3, 4, 6] if quick else [0, 1, 2, 3, 4, 5, 6, 7]):
-            if kind in (2, 3, 6, 7) and vk in (3, 7):
-                continue  # sparse T() of a slice: known C10 finding, panics before any encoding
             for pa in mps:
                 jobs.append({"func": "verif_C18_matrix", "args": [kind, vk, pa], "tag": f"kind={kind} view={vk} pa={pa}"})
     for r in range(0, 3):
@@ -547,20 +545,31 @@ def c18_jobs(tier):
         jobs.append({"func": "verif_C18_malformed", "args": [1, n, 0]})
     jobs.append({"func": "verif_C18_malformed", "args": [2, 0, 0]})
     jobs.append({"func": "verif_C18_malformed", "args": [3, 0, 0]})
+    # distributions as configurations (zzverif/c18cfg.go): real interpretation
+    for (m, ss, fs) in ([(2, 0, 0), (2, 1, 2), (2, 0, 1), (1, 0, 0)] if quick else [(2, 0, 0), (2, 1, 2), (2, 0, 1), (2, 2, 3), (1, 0, 0), (3, 0, 4), (3, 1, 6)]):
+        jobs.append({"pkg": ZZ, "func": "verif_C18_hmmconfig", "args": [m, ss, fs], "mode": "real", "intmode": "int",
+                     "tag": f"hmmconfig m={m} start={ss} final={fs}", "max_wall_ms": 120000, "summarise_logadd": True})
+    for w in range(8):
+        jobs.append({"pkg": ZZ, "func": "verif_C18_distconfig", "args": [w], "mode": "real", "intmode": "int", "tag": f"distconfig {w}"})
     return jobs
 
 
 PROPS["C18"] = {
-    "overlay": [RT, VIEWS, SCALAR_COMMON, _scalar_real("Real64"), ("root/zz_verif_c03.go", "zz_verif_c03.go"), ("root/zz_verif_c18.go", "zz_verif_c18.go")],
+    "overlay": [RT, VIEWS, SCALAR_COMMON, _scalar_real("Real64"), ("root/zz_verif_c03.go", "zz_verif_c03.go"), ("root/zz_verif_c18.go", "zz_verif_c18.go"),
+                ("zzverif/c04.go", "zzverif/c04.go"), ("zzverif/c15.go", "zzverif/c15.go"), ("zzverif/c18cfg.go", "zzverif/c18cfg.go")],
+    "patterns": [".", "./zzverif"],
+    "replay_tol": 1e-9,
     "mode": "fp", "intmode": "int",
     "jobs": c18_jobs,
-    "reach": ["C18-scalar", "C18-vector", "C18-matrix", "C18-malformed"],
+    "reach": ["C18-scalar", "C18-vector", "C18-matrix", "C18-malformed", "C18-hmmconfig", "C18-distconfig"],
     "selftest_vars": ["x", "x.d", "x.h", "a", "a.d", "v", "v.d", "d", "h"],
     "bounds": {"quick": "JSON pairs of Float64/Float32/Int/ConstFloat64/Real64 scalars (jets N=2, order<=2), dense/sparse Float64/Real64 vectors (length 3, zero patterns) and matrices (Slice/T views of a 3x3 parent, "
                         "all slice bounds); malformed documents: dense-matrix documents with every Rows,Cols in 0..2 and 0..6 values, sparse-vector documents with <=2 indices in -1..2 and <=2 values, Real64 documents with mismatching derivative/Hessian sizes, wrong kinds",
                "thorough": "also Float32/Real32 containers and depth-3 views"},
-    "outside": "number formatting and parsing (the contract 'float64 round-trips exactly' of encoding/json is assumed), Export/Import table files, gzip, arbitrary byte strings as reader input, ConfigDistribution (reflection driven)",
-    "assumptions": ["encoding/json is replaced by a data-model stub: Marshal maps Go values to trees of number/string/bool/null/array/object-by-exported-field-name with the number leaves carried through unchanged, Unmarshal assigns by field name and reports kind mismatches"],
+    "outside": "number formatting and parsing (the contract 'float64 round-trips exactly' of encoding/json is assumed), Export/Import table files, gzip, arbitrary byte strings as reader input; configurations: generic.Hmm and 8 scalar families only (nested emission distributions, mixtures and the registry lookup by name are not encoded)",
+    "assumptions": ["encoding/json is replaced by a data-model stub: Marshal maps Go values to trees of number/string/bool/null/array/object-by-exported-field-name with the number leaves carried through unchanged, Unmarshal assigns by field name and reports kind mismatches; decoding into interface{} yields map[string]interface{} / []interface{} / float64 / string / bool as documented",
+                    "package reflect (Kind, Float, Bool, String, Len, Index, Elem, Interface, MapIndex, IsValid) is a data-model stub over the executor's values",
+                    "configuration round trips: floats read as reals (the file holds probabilities, the object logarithms)"],
 }
 
 # ----------------------------------------------------------------------------- C12
@@ -581,8 +590,6 @@ def c12_jobs(tier):
             for pa in vp:
                 jobs.append({"func": "verif_C12_vec", "args": [kind, how, 3, pa], "tag": f"vec kind={kind} how={how} pa={pa}"})
             for vk in ([0, 1, 2, 4, 6] if quick else [0, 1, 2, 3, 4, 5, 6, 7]):
-                if kind in (2, 3, 6, 7) and vk in (3, 7):
-                    continue
                 for pa in (mps if how in (0, 2) else mps[:1]):
                     jobs.append({"func": "verif_C12_mat", "args": [kind, how, vk, pa], "tag": f"mat kind={kind} how={how} view={vk} pa={pa}"})
         for pa in vp[:3]:
@@ -594,14 +601,22 @@ def c12_jobs(tier):
         jobs.append({"func": "verif_C12_scalar", "args": [w]})
     for pa in vp[:3]:
         jobs.append({"func": "verif_C12_ctor", "args": [3, pa]})
+    # algorithm entry points under a write watch (zzverif/c12alg.go)
+    for which in range(22):
+        for kind in ((0,) if quick else (0, 1)):
+            for n in ((2,) if quick else (2, 3)):
+                jobs.append({"pkg": ZZ, "func": "verif_C12_alg", "args": [which, kind, n], "tag": f"alg which={which} kind={kind} n={n}",
+                             "bfs": True, "max_paths": 24 if quick else 120, "max_wall_ms": 20000 if quick else 120000, "selftest": True})
     return jobs
 
 
 PROPS["C12"] = {
-    "overlay": [RT, VIEWS, SCALAR_COMMON, _scalar_real("Real64"), ("root/zz_verif_c03.go", "zz_verif_c03.go"), ("root/zz_verif_c12.go", "zz_verif_c12.go")],
+    "overlay": [RT, VIEWS, SCALAR_COMMON, _scalar_real("Real64"), ("root/zz_verif_c03.go", "zz_verif_c03.go"), ("root/zz_verif_c12.go", "zz_verif_c12.go"),
+                ("zzverif/c04.go", "zzverif/c04.go"), ("zzverif/c05.go", "zzverif/c05.go"), ("zzverif/c12alg.go", "zzverif/c12alg.go")],
+    "patterns": [".", "./zzverif"],
     "mode": "fp", "intmode": "int",
     "jobs": c12_jobs,
-    "reach": ["C12-vec", "C12-mat", "C12-scalar", "C12-iter", "C12-operands", "C12-ctor"],
+    "reach": ["C12-vec", "C12-mat", "C12-scalar", "C12-iter", "C12-operands", "C12-ctor", "C12-alg"],
     "selftest_vars": ["a", "a.d", "a.h", "v", "v.d", "w", "w.d", "w.h", "u", "u.d", "u.h", "b", "b.d", "f", "g"],
     "bounds": {"quick": "Clone*/As* of dense and sparse Float64/Real64 vectors (length 3) and matrices (Slice/T views of a 3x3 parent, all slice bounds), Real64/Float64 scalars (jets N=2, order 2), iterator clones; "
                         "symbolic element values, every position of clone / source mutated with symbolic values; read-only operands of 6 operation groups; index/value constructors",
@@ -621,20 +636,23 @@ def c20_jobs(tier):
         for op in range(10):
             jobs.append({"func": "verif_C20_matshape", "args": [kind, op], "tag": f"kind={kind} op={op}"})
         for vk in ([0, 1, 2, 4] if quick else [0, 1, 2, 3, 4, 6]):
-            if kind in (2, 3, 6, 7) and vk in (3,):
-                continue
             jobs.append({"func": "verif_C20_index", "args": [kind, vk], "tag": f"kind={kind} view={vk}"})
         for (r, c) in ((1, 1), (2, 3), (3, 2), (1, 3)):
             jobs.append({"func": "verif_C20_structural", "args": [kind, r, c], "max_steps": 2000000})
     jobs.append({"func": "verif_C20_orders", "args": []})
+    # the rotation kernel of the SVD / QR convergence loops never yields NaN (bit-precise)
+    for kind in (0, 1):
+        jobs.append({"pkg": ZZ, "func": "verif_C20_givens", "args": [kind], "mode": "real", "tag": f"givens kind={kind}", "selftest": False})
     return jobs
 
 
 PROPS["C20"] = {
-    "overlay": [RT, VIEWS, SCALAR_COMMON, _scalar_real("Real64"), ("root/zz_verif_c03.go", "zz_verif_c03.go"), ("root/zz_verif_c20.go", "zz_verif_c20.go")],
+    "overlay": [RT, VIEWS, SCALAR_COMMON, _scalar_real("Real64"), ("root/zz_verif_c03.go", "zz_verif_c03.go"), ("root/zz_verif_c20.go", "zz_verif_c20.go"),
+                ("zzverif/c04.go", "zzverif/c04.go"), ("zzverif/c20num.go", "zzverif/c20num.go")],
+    "patterns": [".", "./zzverif"],
     "mode": "fp", "intmode": "int",
     "jobs": c20_jobs,
-    "reach": ["C20-vecshape", "C20-matshape", "C20-index", "C20-orders", "C20-structural"],
+    "reach": ["C20-vecshape", "C20-matshape", "C20-index", "C20-orders", "C20-structural", "C20-givens"],
     "selftest_vars": ["r", "a", "b", "v", "m", "x", "y"],
     "bounds": {"quick": "loud failure: 11 vector and 10 matrix operation groups with every combination of receiver/operand dimensions in 0..2 (vectors) / 1..2 (matrices), dense and sparse Float64/Real64; element access with a symbolic index "
                         "on vectors (length 3) and on Slice/T views of a 3x3 parent (all slice bounds); SetVariable orders -1..4; dyadic operations on different N; structural loops (Tip, ReverseOrder, Sort, iteration) on shapes up to 3x2",
@@ -717,15 +735,22 @@ def c05_jobs(tier):
         for w in range(3):
             J("verif_C05_forcepd_graded", [kind, w], mode="fp")
         J("verif_C05_givens", [kind])
+    # one symmetric QR step from an arbitrary tridiagonal state (in-package harness)
+    QR = ROOT + "/algorithm/qrAlgorithm"
+    for (n, p, q, z) in ([(2, 0, 0, 0), (3, 1, 0, 0), (3, 0, 1, 0)] if quick else
+                         [(2, 0, 0, 0), (2, 0, 0, 1), (3, 1, 0, 0), (3, 0, 1, 0), (3, 1, 0, 1), (3, 0, 0, 0), (4, 1, 1, 0), (4, 2, 0, 1), (4, 1, 0, 0)]):
+        jobs.append({"pkg": QR, "func": "verif_C05_qrstep", "args": [0, n, p, q, z], "mode": "real", "intmode": "int",
+                     "tag": f"qrstep n={n} p={p} q={q} z={z}"})
     return jobs
 
 
 PROPS["C05"] = {
-    "overlay": [RT, ("zzverif/c04.go", "zzverif/c04.go"), ("zzverif/c05.go", "zzverif/c05.go")],
-    "patterns": ["./zzverif"],
+    "overlay": [RT, ("zzverif/c04.go", "zzverif/c04.go"), ("zzverif/c05.go", "zzverif/c05.go"),
+                ("pkg/qr_c05.go", "algorithm/qrAlgorithm/zz_verif_c05.go")],
+    "patterns": ["./zzverif", "./algorithm/qrAlgorithm"],
     "mode": "real", "intmode": "int",
     "jobs": c05_jobs,
-    "reach": ["cholesky-returned", "forcepd-returned", "forcepd-graded", "gs-returned", "givens"],
+    "reach": ["cholesky-returned", "forcepd-returned", "forcepd-graded", "gs-returned", "givens", "C05-qrstep"],
     "replay_tol": 1e-6,
     "job_budget_ms": {"quick": 150000, "thorough": 1500000},
     "selftest_vars": [],
@@ -892,22 +917,29 @@ def c15_jobs(tier):
             J("verif_C15_marginals", [m, n, zm], obl_cap_ms=40000)
             for final in ((0,) if m == 1 else (0, 1)):
                 J("verif_C15_viterbi", [m, n, zm, final])
+    # float64 forward-backward of Baum-Welch (reused buffers) = generic recursion (in-package harness)
+    GEN = ROOT + "/statistics/generic"
+    for (m, n, N) in ([(2, 1, 2), (2, 2, 3), (2, 3, 3), (1, 1, 1)] if quick else [(2, 1, 2), (2, 1, 3), (2, 2, 3), (2, 3, 3), (2, 4, 4), (3, 1, 2), (3, 3, 3), (1, 1, 1)]):
+        for finals in ((0,) if m == 1 else (0, 1)):
+            jobs.append({"pkg": GEN, "func": "verif_C15_float64fb", "args": [m, n, N, finals], "mode": "real", "intmode": "int",
+                         "summarise_logadd": True, "tag": f"float64fb m={m} n={n} N={N} finals={finals}"})
     return jobs
 
 
 PROPS["C15"] = {
-    "overlay": [RT, ("zzverif/c04.go", "zzverif/c04.go"), ("zzverif/c15.go", "zzverif/c15.go")],
-    "patterns": ["./zzverif"],
+    "overlay": [RT, ("zzverif/c04.go", "zzverif/c04.go"), ("zzverif/c15.go", "zzverif/c15.go"),
+                ("pkg/generic_c15.go", "statistics/generic/zz_verif_c15.go")],
+    "patterns": ["./zzverif", "./statistics/generic"],
     "mode": "real", "intmode": "int",
     "jobs": c15_jobs,
-    "reach": ["logpdf", "marginals", "viterbi"],
+    "reach": ["logpdf", "marginals", "viterbi", "C15-float64fb"],
     "replay_tol": 1e-6,
     "job_budget_ms": {"quick": 120000, "thorough": 900000},
     "selftest_vars": [],
     "bounds": {"quick": "generic.Hmm with m<=2 states and sequences of length n<=3: symbolic log initial / transition / emission values, zero-probability transitions as -Inf patterns, shared emission maps, final-state restriction; "
                         "LogPdf = log of the sum over all m^n hidden paths, posterior marginal x likelihood = mass of the paths through the state, marginals sum to one, the Viterbi path has maximal joint probability; real interpretation, exp-homomorphism, LogAdd summarised",
                "thorough": "m<=3, n<=4"},
-    "outside": "Posterior of state-set sequences, hmm_optimized, mixtures, hierarchical / constrained HMMs, data sets of several sequences, larger models",
+    "outside": "Posterior of state-set sequences, Baum-Welch beyond its forward-backward tables, mixtures, hierarchical / constrained HMMs, data sets of several sequences, larger models",
     "assumptions": ["LogAdd(a,b) is replaced by its summary log(exp a + exp b) (the C02 check discharges that summary against the method bodies)",
                     "floats read as reals; exp/log handled by the exp-homomorphism over atoms E(x)"],
 }
@@ -966,6 +998,10 @@ PROPS["C17"] = {
     "replay_tol": 1e-6,
     "job_budget_ms": {"quick": 120000, "thorough": 900000},
     "selftest_vars": [],
+    # natively the real pool runs and float sums are grouped by the scheduler's
+    # assignment, the executor groups them by symbolic thread ids: no bit-exact
+    # trace comparison is possible (native replays compare within replay_tol)
+    "selftest": False,
     "bounds": {"quick": "Normal, Exponential and Poisson estimators with pools of k = 2, 3 threads (also k > number of jobs) on 2..3 symbolic observations: for every assignment of jobs to threads (symbolic thread ids, one path per assignment) "
                         "the estimate equals the sequential one as a real identity (sums are associative-commutative there) and no memory cell written by a job is accessed by a job of another thread",
                "thorough": "4 observations"},
